@@ -239,6 +239,8 @@ struct Model {
     slack: i64,
     lowered_since_admit: bool,
     raised_since_admit: bool,
+    /// the combined cost has exceeded max_cost at some point of the history (premise of C04 gone)
+    over_seen: bool,
 }
 
 impl Model {
@@ -380,6 +382,7 @@ impl<'a> Interp<'a> {
                 slack: 0,
                 lowered_since_admit: false,
                 raised_since_admit: false,
+                over_seen: false,
             },
             vals: HashMap::new(),
             written: HashMap::new(),
@@ -993,6 +996,9 @@ impl<'a> Interp<'a> {
                     self.m.m.keys_updated += 1;
                     self.m.m.cost_added = self.m.m.cost_added.wrapping_add((cost - prev) as u64);
                 }
+                if cost > prev && self.m.used() > self.m.max_cost {
+                    self.m.over_seen = true;
+                }
                 if cost > prev {
                     self.m.slack += cost - prev;
                     self.feats.cost_raising_updates += 1;
@@ -1058,6 +1064,9 @@ impl<'a> Interp<'a> {
                 let max = self.m.max_cost;
                 let mut exp = Vec::new();
                 let rej = Ev::Reject(val, index, conflict, c, ttl, created);
+                if !self.m.policy.contains_key(&index) && used + c > max {
+                    self.m.over_seen = true;
+                }
                 if c > max {
                     self.feats.oversize_rejections += 1;
                     exp.push(rej);
@@ -1074,9 +1083,10 @@ impl<'a> Interp<'a> {
                     // C04/C07: with room the newcomer must be admitted and nothing evicted
                     let snap_has = costs_after.iter().any(|(k, _)| *k == index);
                     if !snap_has {
+                        let props: &'static [&'static str] = if self.m.over_seen { &["C07"] } else { &["C04", "C07"] };
                         self.fail(
                             "admit_with_room",
-                            &["C04", "C07"],
+                            props,
                             format!("key {} cost {} was not admitted although used {} + cost <= max_cost {}", index, c, used, max),
                         );
                     }
@@ -2150,6 +2160,14 @@ impl<'a> Interp<'a> {
                     Op::ProcInsert => {
                         if let Some(r) = sut.try_step_insert() {
                             nested.borrow_mut().push(NObs::Step(format!("processor: insert arm -> {:?}", r)));
+                        }
+                    }
+                    Op::Drain { .. } => {
+                        for _ in 0..64 {
+                            match sut.try_step_insert() {
+                                Some(r) => nested.borrow_mut().push(NObs::Step(format!("processor: insert arm -> {:?}", r))),
+                                None => break,
+                            }
                         }
                     }
                     Op::Tick => {
